@@ -12,7 +12,7 @@ NULL = -1000001
 
 
 # --------------------------------------------------------------------------------------------- data
-def make_tables(seed, nrows=(9, 7), nulls=True, wide=False):
+def make_tables(seed, nrows=(9, 7), nulls=True, wide=False, presorted=False):
     """two small pandas tables T1(a, b, k), T2(k, b, c) with duplicate keys, NULLs, unique sorted int index 'ix'"""
     import numpy as np
     import pandas as pd
@@ -26,6 +26,11 @@ def make_tables(seed, nrows=(9, 7), nulls=True, wide=False):
                       index=pd.Index(sorted(rnd.sample(range(0, 40), n1)), name="ix"))
     t2 = pd.DataFrame({"k": col(n2, 5, 0.1), "b": col(n2, 3, 0.0), "c": col(n2, 4, 0.15)},
                       index=pd.Index(sorted(rnd.sample(range(0, 40), n2)), name="ix"))
+    if presorted:
+        # T1 already ordered by k (ties included, NULL keys last): the planner's presorted fast paths are taken, and
+        # the exhaustive layouts cut inside runs of equal keys
+        t1 = t1.sort_values("k", kind="stable", na_position="last")
+        t1.index = pd.Index(sorted(t1.index), name="ix")
     if wide:
         t1["u1"] = np.arange(n1, dtype="float64") * 3
         t1.insert(0, "u0", 7.0)
@@ -425,3 +430,22 @@ def groupby_fs(q):
         if "c" not in q:
             return out
         q = q["c"][0]
+
+
+def sort_input_nullkey_partition(q, env):
+    """diagnostic for failing sortedness checks (known finding F27): does the input of the top sort / set_index of the
+    program (below filter / dropna / head) have a partition that holds no non-null value of the first sort key?"""
+    import dask
+    try:
+        node = q
+        while node["op"] in ("filter", "dropna", "head"):
+            node = node["c"][0]
+        if node["op"] not in ("sort", "setindex"):
+            return False
+        key = node["by"][0] if node["op"] == "sort" else node["col"]
+        x = build(node["c"][0], env, "dask")
+        low = x.expr.lower_completely()
+        parts = dask.get(low.__dask_graph__(), low.__dask_keys__())
+        return len(parts) > 1 and any(len(p) == 0 or bool(p[key].isna().all()) for p in parts)
+    except Exception:
+        return False
